@@ -57,7 +57,7 @@ impl WriteGuard {
     #[verifier::external_body]
     pub fn insert(&mut self, key: TypeIdV, v: AnyBoxObj, Tracked(w): Tracked<&mut World>) -> (r: Option<AnyBoxObj>)
         requires old(w).locked,                                                                                               // @ob lock.registry-written-under-lock C08
-        ensures *final(w) == (World { registry: old(w).registry.insert(key.id(), v.val()), ..*old(w) }),
+        ensures *final(w) == (World { registry: old(w).registry.insert(key.id(), v.val()), reg_evictions: old(w).reg_evictions + evicts(old(w), key.id()), ..*old(w) }),
                 r is Some <==> old(w).registry.dom().contains(key.id()), r is Some ==> r->0.val() == old(w).registry[key.id()]
     { unimplemented!() }
     // HashMap::entry(k).or_insert(v): inserts only if the key is vacant; an occupied entry (even of a terminated instance) is left as it is
@@ -69,11 +69,13 @@ impl WriteGuard {
     #[verifier::external_body]
     pub fn remove(&mut self, key: &TypeIdV, Tracked(w): Tracked<&mut World>) -> (r: Option<AnyBoxObj>)
         requires old(w).locked,                                                                                               // @ob lock.registry-written-under-lock C08
-        ensures *final(w) == (World { registry: old(w).registry.remove(key.id()), ..*old(w) }),
+        ensures *final(w) == (World { registry: old(w).registry.remove(key.id()), reg_evictions: old(w).reg_evictions + evicts(old(w), key.id()), ..*old(w) }),
                 r is Some <==> old(w).registry.dom().contains(key.id()), r is Some ==> r->0.val() == old(w).registry[key.id()]
     { unimplemented!() }
 }
 pub enum ActorError { ServiceStillRunning, AlreadyStopped, Other }
 
+// taking the entry under key k out of the registry (removing or overwriting it) evicts a live instance iff one is registered there
+pub open spec fn evicts(w: &World, k: int) -> int { if reg_live(w, w.registry, k) { 1 } else { 0 } }
 pub open spec fn reg_live(w: &World, rg: Map<int, AnyVal>, k: int) -> bool { rg.dom().contains(k) && !w.slots[rg[k].slot].resolved }
 pub trait Service: Actor + Default {}
